@@ -2317,7 +2317,10 @@ impl<'a> Model<'a> {
         let start_col = self.dev_state(k).col;
         let st = self.dev_state(k);
         st.pos += delivered;
-        st.col = match (start_col, cut_fragment) {
+        // (since fix 61 the implementation counts the characters that went out before the
+        // device refused the rest, so a cut fragment leaves a known column as well)
+        let _ = cut_fragment;
+        st.col = match (start_col, false) {
             (Some(c0), false) => {
                 let mut c = c0;
                 for b in &got {
